@@ -221,4 +221,26 @@ Unfold(body, s, max) ==
   IF Len(body) + Len(s.exec) > max.exec THEN Fatal(s, "exec")
   ELSE Ok([s EXCEPT !.exec = body \o @])
 
+(* One interpreter step on a state whose exec stack is not empty: the top   *)
+(* item is taken off exec and unfolded (block) or performed (instruction).  *)
+(* The SET of outcomes allowed (a singleton except at L1 / L2).             *)
+StepOutcomes(s, max, inputs) ==
+  LET item == s.exec[1]
+      rest == PopN(s, "exec", 1)
+  IN IF IsBlock(item) THEN {Unfold(item.v, rest, max)}
+                      ELSE Perform(item, rest, max, inputs)
+
+(* run_to_completion as a function: the SET of ways the run can end (a     *)
+(* singleton except where the latitudes L1 / L2 are met on the way).       *)
+(* MC_PushRun checks that the Step / Halt actions of PushVM end exactly     *)
+(* there (RunAgrees); PushGP scores genomes with it.                        *)
+RECURSIVE RunFrom(_, _, _, _, _)
+RunFrom(s, n, max, inputs, limit) ==
+  IF n >= limit \/ Len(s.exec) = 0
+    THEN {[st |-> s, steps |-> n, status |-> "done", err |-> NoErr]}
+    ELSE UNION { IF r.kind = "fatal"
+                   THEN {[st |-> r.st, steps |-> n + 1, status |-> "fatal", err |-> r.err]}
+                   ELSE RunFrom(r.st, n + 1, max, inputs, limit)
+                 : r \in StepOutcomes(s, max, inputs) }
+
 =============================================================================
